@@ -122,10 +122,9 @@ def run(ctx, model_available=True):
                     failures.append({"kind": "oracle", "sig": "C02:listen-reject-class",
                                      "desc": f"listen on malformed line {line[:100]!r}: {'yielded' if e is None else type(e).__name__} instead of InvalidMessageError",
                                      "case": {"line": line}})
-            else:
-                if e is not None and type(e).__name__ == "InvalidMessageError":
-                    failures.append({"kind": "oracle", "sig": "C02:listen-rejects-wellformed",
-                                     "desc": f"listen rejected well-formed line {line[:100]!r} as invalid", "case": {"line": line}})
+            # a well-formed line may still end in the invalid-message error raised by a
+            # *handler* (absurd battery / heartbeat / version payload: C03); whether the
+            # decoder accepts it is checked on MessageSchema.load directly above
         impls.append(im)
     if model_available:
         outs = d.run()
